@@ -22,6 +22,7 @@ import numpy as np
 import z3
 
 from sx.arr import SArr
+from sx.rt import reraise_model_gap  # noqa: F401
 from sx.rt import And, Implies, Not, Or, SInt, SReal, Unsupported, same_value, tonum
 
 from harness import export as X
@@ -144,6 +145,7 @@ def geff_harness(ctx, cfg):
     except Unsupported:
         raise
     except Exception as e:
+        reraise_model_gap(e)
         exc = e
     finally:
         M.remove()
@@ -206,6 +208,7 @@ def csv_harness(ctx, cfg):
     except Unsupported:
         raise
     except Exception as e:
+        reraise_model_gap(e)
         exc = e
     finally:
         M.remove_csv()
@@ -310,6 +313,7 @@ def geff_seg_harness(ctx, cfg):
     except Unsupported:
         raise
     except Exception as e:
+        reraise_model_gap(e)
         exc = e
     finally:
         M.remove()
@@ -507,6 +511,7 @@ def internal_harness(ctx, cfg):
         except Unsupported:
             raise
         except Exception as e:
+            reraise_model_gap(e)
             exc = e
     finally:
         X._restore(saved)
@@ -610,6 +615,7 @@ def replay(f):
                     export_to_csv(tr, tmp / "out.csv", use_display_names=bool(inp.get("display_names")))
                     tr2 = tracks_from_df(pd.read_csv(tmp / "out.csv"), node_name_map=dict(inp["name_map"]))
             except Exception as e:
+                reraise_model_gap(e)
                 exc = e
         detail = f"original nodes={ {n: a0[n] for n in sorted(a0)} } edges={sorted(g0.edges)} name_map={inp['name_map']}" \
                  f" -> exc={exc!r}"
@@ -693,6 +699,7 @@ def _replay_internal(inp, ob, tmp):
             save_tracks(tr, tmp / "saved")
             tr2 = load_tracks(tmp / "saved", seg_required=seg0 is not None, solution=True)
     except Exception as e:
+        reraise_model_gap(e)
         exc = e
     detail = f"original nodes={ {n: a0[n] for n in sorted(a0)} } edges={sorted(g0.edges)} scale={scale0} -> exc={exc!r}"
     if ob == "C14.reimport_accepted":
@@ -756,6 +763,7 @@ def _replay_geff_seg(inp, ob, tmp):
         tr2 = import_from_geff(tmp / "out" / "tracks", node_name_map=dict(inp["name_map"]),
                                segmentation_path=tmp / "out" / "segmentation", scale=inp.get("scale"))
     except Exception as e:
+        reraise_model_gap(e)
         exc = e
     detail = (f"original nodes={ {n: a0[n] for n in sorted(a0)} } edges={sorted(g0.edges)} seg={seg.tolist()} "
               f"name_map={inp['name_map']} -> exc={exc!r}")
